@@ -216,4 +216,4 @@ impl Drop for Scope<'_> {
 
 #[cfg(kani)]
 #[path = "/verif/harness/may/scoped.rs"]
-mod verif_kani;
+pub(crate) mod verif_kani;
